@@ -1,6 +1,6 @@
 (* Extract/Extract_c32.v — extraction of the C32 model: the defined-name rename pass. *)
 Require Extraction.
 Require Import ExtrOcamlBasic.
-From IronCalc Require Import Base.Prelude Codec.RefA1 Syntax.Token Syntax.Ast Syntax.RenameName Syntax.Localize.
+From IronCalc Require Import Base.Prelude Codec.RefA1 Syntax.Token Syntax.Ast Syntax.Shape Syntax.RenameName Syntax.Localize.
 Extraction Language OCaml.
-Extraction "model_c32.ml" RenameName.rename RenameName.defnames RenameName.erase Localize.lower.
+Extraction "model_c32.ml" RenameName.rename RenameName.defnames RenameName.erase Localize.lower Localize.names_of RenameName.update_name_in_formula Shape.glue.
